@@ -314,13 +314,13 @@ func C15(tier string) int {
 	if thorough {
 		checks = append(checks, "C18")
 	}
-	vocabs = append(vocabs, NameClashVocab())
+	vocabs = append(vocabs, NameClashVocab(), ThreeVocabs())
 	if thorough {
 		vocabs = append(vocabs, TypelessChildVocab())
 	}
 	if only != "" {
 		var sel []ExtVocab
-		for _, v := range append(append([]ExtVocab{FullVocab(1), NameClashVocab(), TypelessChildVocab()}, MinimalVocabs()...), vocabs...) {
+		for _, v := range append(append([]ExtVocab{FullVocab(1), NameClashVocab(), TypelessChildVocab(), ThreeVocabs()}, MinimalVocabs()...), vocabs...) {
 			if v.Label == only && len(sel) == 0 {
 				sel = append(sel, v)
 			}
@@ -360,7 +360,7 @@ func C15(tier string) int {
 	wg.Wait()
 	res.Extra["extensions"] = extInfo
 	res.Sample(M{"part": "extension", "vocabulary": vocabs[0].Label, "types": len(vocabs[0].Types), "properties": len(vocabs[0].Props)})
-	res.Rule = "(1) astool built from the current tree regenerates streams/: same file set, same Go syntax trees, through both documented invocations ('<dest>' and, from inside the destination, '.'); generator runs are confined to their scratch directory by a private mount namespace with a read-only root; (2) astool rebuilt through the map-order overlay (every range over a map iterates in an order chosen by the explorer): baseline ASC, then per site DESC (deviation bound 1), global DESC and global ROTATE (thorough: per site ROTATE and all pairs of sites under DESC within the time budget) - every run's output tree must be byte-identical to the baseline; (3) extension vocabularies layered on ActivityStreams from a shape family (types with parents Object / Activity / Link / Collection / own type / two levels down / multiple parents; properties over 5 domain shapes x 8 range shapes x functional x withheld-from-own-child): astool must succeed, the code must compile, and the C13, C12, C01, C14 (thorough: C18) drivers rebuilt against the generated tree with a binding table from the extended ontology must pass; states = order policies + vocabularies, transitions = astool runs"
+	res.Rule = "(1) astool built from the current tree regenerates streams/: same file set, same Go syntax trees, through both documented invocations ('<dest>' and, from inside the destination, '.'); generator runs are confined to their scratch directory by a private mount namespace with a read-only root; (2) astool rebuilt through the map-order overlay (every range over a map iterates in an order chosen by the explorer): baseline ASC, then per site DESC (deviation bound 1), global DESC and global ROTATE (thorough: per site ROTATE and all pairs of sites under DESC within the time budget) - every run's output tree must be byte-identical to the baseline; (3) extension vocabularies layered on ActivityStreams from a shape family (types with parents Object / Activity / Link / Collection / own type / two levels down / multiple parents / two parents across a property-withholding branch / lattice shapes with redundant and already-reached parents / a parentless typeless type; a vocabulary layered on ActivityStreams AND ForgeFed (three files) with types below and properties over ForgeFed types; a vocabulary whose type shares its name with a referenced type (C13 driver; recorded finding); thorough: a typeless type below a typed one (recorded finding); properties over 5 domain shapes x 8 range shapes x functional x withheld-from-own-child): astool must succeed, the code must compile, and the C13, C12, C01, C14 (thorough: C18) drivers rebuilt against the generated tree with a binding table from the extended ontology must pass; states = order policies + vocabularies, transitions = astool runs"
 	res.Assumptions = []string{"'any well-formed extension' is replaced by the stated shape family", "map orders other than the enumerated policies are not covered", "go/parser + go/printer decide syntax-tree equality"}
 	return res.Finish()
 }
@@ -390,6 +390,12 @@ func runExtension(scratch, astool, instrumented string, idx int, v ExtVocab, che
 		return info, viols
 	}
 	as := repoDir() + "/astool/activitystreams.jsonld"
+	// the vocabularies the extension is layered on: ActivityStreams, plus further shipped ones it references
+	base := []string{as}
+	for _, x := range v.Extra {
+		base = append(base, repoDir()+"/astool/"+x)
+	}
+	specs := append(append([]string{}, base...), spec)
 	if instrumented != "" {
 		// the generator's map iteration is owned here too: every order policy must succeed and agree
 		var ref map[string]string
@@ -398,7 +404,7 @@ func runExtension(scratch, astool, instrumented string, idx int, v ExtVocab, che
 			if pol != "ASC" {
 				d = filepath.Join(dir, "mod-"+pol)
 			}
-			out, err := generate(instrumented, []string{as, spec}, d, []string{"ZZMAPORDER=" + pol})
+			out, err := generate(instrumented, specs, d, []string{"ZZMAPORDER=" + pol})
 			if err != nil {
 				return fail("extension|astool-fails|policy="+pol, fmt.Sprintf("astool fails under map-order policy %s: %s", pol, firstPanicLines(out)))
 			}
@@ -413,7 +419,7 @@ func runExtension(scratch, astool, instrumented string, idx int, v ExtVocab, che
 				os.RemoveAll(d)
 			}
 		}
-	} else if out, err := generate(astool, []string{as, spec}, mod, nil); err != nil {
+	} else if out, err := generate(astool, specs, mod, nil); err != nil {
 		return fail("extension|astool-fails|policy=runtime", "astool fails: "+firstPanicLines(out))
 	}
 	os.WriteFile(filepath.Join(mod, "go.mod"), []byte("module github.com/go-fed/activity\n\ngo 1.12\n"), 0o644)
@@ -430,7 +436,7 @@ func runExtension(scratch, astool, instrumented string, idx int, v ExtVocab, che
 	gs, _ := os.ReadFile(filepath.Join(vd, "go.sum"))
 	os.WriteFile(filepath.Join(dir, "verif.sum"), gs, 0o644)
 	bind := filepath.Join(dir, "zz_bind.go")
-	if out, err := run(vd, nil, "go", "run", "./cmd/mkbind", bind, "github.com/go-fed/activity/streams", as, spec); err != nil {
+	if out, err := run(vd, nil, "go", append([]string{"run", "./cmd/mkbind", bind, "github.com/go-fed/activity/streams"}, specs...)...); err != nil {
 		return fail("tool|mkbind", out)
 	}
 	ov := filepath.Join(dir, "overlay.json")
@@ -448,7 +454,7 @@ func runExtension(scratch, astool, instrumented string, idx int, v ExtVocab, che
 	os.WriteFile(filepath.Join(outRoot, "known_findings.json"), kf, 0o644)
 	results := M{}
 	for _, c := range checks {
-		out, err := run(vd, []string{"VERIF_ROOT=" + outRoot, "VERIF_VOCABS=" + as + ":" + spec, "VERIF_EXT=1"}, drv, c, "quick")
+		out, err := run(vd, []string{"VERIF_ROOT=" + outRoot, "VERIF_VOCABS=" + strings.Join(specs, ":"), "VERIF_EXT=1"}, drv, c, "quick")
 		line := ""
 		for _, l := range strings.Split(out, "\n") {
 			if strings.HasPrefix(l, c+" ") {
